@@ -74,7 +74,12 @@ class _TransportNotifyMiddleware:
     ``make_wsgi_app`` time so that pre-fork servers (gunicorn, uwsgi)
     correctly fire the worker's ``on_serve_start`` hook in each child
     process — not in the master.  After the first request the check
-    becomes a single attribute load.
+    becomes a single attribute load and compare.
+
+    The check is "not bound to HTTP", not "not bound at all": a server
+    object that was meanwhile bound to another transport (``serve()`` over
+    a pipe or socket) is rebound to HTTP — firing the hook again — before
+    an HTTP request is dispatched, so ``ctx.kind`` is ``HTTP`` for it.
 
     Thread-safety is delegated to ``_notify_transport`` (lock-protected).
     """
@@ -86,8 +91,8 @@ class _TransportNotifyMiddleware:
         self._server = server
 
     def process_request(self, req: falcon.Request, resp: falcon.Response) -> None:
-        """Bind the server to ``HTTP`` on the first request handled here."""
-        if self._server.transport_kind is None:
+        """Bind the server to ``HTTP`` unless it already is."""
+        if self._server.transport_kind != TransportKind.HTTP:
             self._server._notify_transport(TransportKind.HTTP, frozenset())
 
 
